@@ -139,6 +139,17 @@ func genLib(r *core.RNG, tier string) *libScenario {
 		}
 		sc.Ops = append(sc.Ops, libOp{Op: "put", Key: r.Intn(nk), Body: b, Writes: genWrites(r), Level: flateLevels[r.Intn(len(flateLevels))]})
 	}
+	if nk > 1 && r.Chance(1, 6) {
+		// a caller that reuses its digest buffers for the next key while
+		// this entry is still open
+		k := r.Intn(nk)
+		o := (k + 1 + r.Intn(nk-1)) % nk
+		b := genBody(r, tier)
+		if b.Len > 70000 {
+			b.Len = 70000
+		}
+		sc.Ops = append(sc.Ops, libOp{Op: "put", Key: k, Body: b, Writes: genWrites(r), Level: flateLevels[r.Intn(len(flateLevels))], ReuseFor: o + 1})
+	}
 	sc.Ops = append(sc.Ops, libOp{Op: "put", Key: r.Intn(nk), Body: genBody(r, tier), Writes: genWrites(r), Level: flateLevels[r.Intn(len(flateLevels))]})
 	return sc
 }
